@@ -159,7 +159,8 @@ def make_child(sh):
             out.append(Member(nm('f%d' % i), instrs=ins))
         entries = [([('n', 'c1')], 'C1', 'Unspecified'), ([('n', 'c1'), ('n', 'c2')], 'C2', 'Unspecified'), ([('n', 'd1')], 'D1', 'Unspecified'), ([('n', 'c1'), ('n', 'c3')], 'C3', 'Unspecified')]
         cp = ChildParents(entries)
-        gd = GhostsInstr('ghosts', data=[GhostData(('n', 'gz'), '__gz(@)', path=[('n', 'c1')], tag='gz')])
+        gd = GhostsInstr('ghosts', data=[GhostData(('n', 'gz'), '__gz(@)', path=[('n', 'c1')], tag='gz'), GhostData(('n', 'gw'), '__gw(@)', path=[('n', 'd1')], tag='gw'),
+                                         GhostData(('n', 'gv'), '__gv(@)', path=[('n', 'c1'), ('n', 'c3')], tag='gv')])
         return Spec('struct', shape=shape, traits=[t1], members=out, type_instrs=[cp] + ([gd] if shape == 'named' else []))
     return make
 
@@ -310,65 +311,79 @@ class Opt:
 def misuse_shards(tier, seed):
     out = []
     for shape in ('named', 'tuple'):
-        for t2ty in ('X', 'Y'):
-            for variant in ('A', 'B', 'C'):
-                if tier == 'quick' and (['A', 'B', 'C'].index(variant) + (shape == 'tuple') + (t2ty == 'Y') + seed) % 2:
-                    continue
-                out.append({'family': 'misuse', 'item': 'struct', 'shape': shape, 't2ty': t2ty, 'variant': variant})
-    for variant in ('A', 'B'):
-        out.append({'family': 'misuse', 'item': 'enum', 'shape': 'enum', 't2ty': 'Y', 'variant': variant})
+        for variant in ('A1x', 'A1y', 'A2', 'B1', 'B2', 'B3', 'C1', 'C2', 'C3'):
+            if tier == 'quick' and shape == 'tuple' and variant not in ('C3', 'A2', 'B1'):
+                continue
+            out.append({'family': 'misuse', 'item': 'struct', 'shape': shape, 'variant': variant})
+    for variant in ('EA1', 'EA2', 'EB'):
+        out.append({'family': 'misuse', 'item': 'enum', 'shape': 'enum', 'variant': variant})
     return out
 
 
 def make_misuse(sh):
-    item, shape, t2ty, variant = sh['item'], sh['shape'], sh['t2ty'], sh['variant']
+    item, shape, variant = sh['item'], sh['shape'], sh['variant']
+    yes = lambda n: Ch(n, [False, True], fork=True)
 
     def make():
         nm = (lambda s: s) if shape == 'named' else (lambda s: None)
-        if item == 'struct' and variant == 'A':
-            # trait-level rules: duplicates, error types; dedication to unknown type on member instructions; ghost without default
-            t1 = TraitInstr(Ch('t1n', BASIC12), 'X', err=Ch('t1e', [None, 'Er']), hint=Ch('t1h', ['Unspecified', 'Struct']), update=Ch('t1u', [None, '__u(@)']), tag='t1')
-            t2 = TraitInstr(Ch('t2n', ['from_owned', 'owned_into', 'try_from_owned', 'ref_into_existing']), t2ty, err=Ch('t2e', [None, 'Er']), tag='t2')
-            m0 = Member(nm('a'), instrs=[MapInstr(Ch('m0n', ['map', 'from_owned', 'owned_into', 'try_map', 'ref_into_existing']), ded=Ch('m0d', [None, 'X', 'Z']), member=Ch('m0m', [None, ('n', 'zz')]), action=Ch('m0a', [None, '__e(~)']), tag='e')])
-            m1 = Member(nm('b'), instrs=[GhostInstr(Ch('g1n', ['ghost', 'ghost_owned']), ded=Ch('g1d', [None, 'X', 'Z']), action=Ch('g1a', [None, '__g(@)']), tag='g')])
-            return Spec('struct', shape=shape, traits=[t1, t2], members=[m0, m1], tys=('X', 'Y', 'Z'))
-        if item == 'struct' and variant == 'B':
-            # type-level helper instructions: ghosts / child_parents / where_clause duplicates and unknown dedication; child without child_parents
+        tX = lambda: TraitInstr('map', 'X', tag='t1')
+        tY = lambda: TraitInstr('map', 'Y', tag='t2')
+        if variant in ('A1x', 'A1y'):
+            # duplicates for one counterpart; missing / superfluous error type
+            t1 = TraitInstr(Ch('t1n', BASIC12), 'X', err=Ch('t1e', [None, 'Er']), tag='t1')
+            t2 = TraitInstr(Ch('t2n', ['from_owned', 'map', 'try_from_owned', 'ref_into_existing', 'try_into']), 'X' if variant == 'A1x' else 'Y', err=Ch('t2e', [None, 'Er']), tag='t2')
+            return Spec('struct', shape=shape, traits=[t1, t2], members=[Member(nm('a'))], tys=('X', 'Y', 'Z'))
+        if variant == 'A2':
+            # member instructions dedicated to an unknown counterpart; ghost without default where one is needed
+            t1 = TraitInstr(Ch('t1n', BASIC12 + ['map', 'try_from']), 'X', err=Ch('t1e', ['Er', None]), update=Ch('t1u', [None, '__u(@)']), tag='t1')
+            m0 = Member(nm('a'), instrs=[MapInstr(Ch('m0n', ['map', 'owned_into', 'try_map']), ded=Ch('m0d', [None, 'X', 'Z']), member=('n', 'zz'), tag='e')])
+            m1 = Member(nm('b'), instrs=[GhostInstr(Ch('g1n', ['ghost', 'ghost_owned']), ded=Ch('g1d', [None, 'X', 'Y', 'Z']), action=Ch('g1a', [None, '__g(@)']), tag='g')])
+            return Spec('struct', shape=shape, traits=[t1, tY()], members=[m0, m1], tys=('X', 'Y', 'Z'))
+        if variant == 'B1':
+            g = lambda k: ('n', 'g%s' % k) if shape == 'named' else ('i', 5 + k)
+            g1 = GhostsInstr(Ch('gs1n', ['ghosts', 'ghosts_owned', 'ghosts_ref']), ded=Ch('gs1d', [None, 'X', 'Z']), data=[GhostData(g(0), '__gx(@)', tag='gx')])
+            g2 = Opt(yes('gs2p'), GhostsInstr(Ch('gs2n', ['ghosts', 'ghosts_owned', 'ghosts_ref']), ded=Ch('gs2d', [None, 'X', 'Y']), data=[GhostData(g(1), '__gy(@)', tag='gy')]))
+            return Spec('struct', shape=shape, traits=[TraitInstr(Ch('t1n', ['map', 'into', 'from']), 'X', tag='t1'), tY()], members=[Member(nm('a'))], type_instrs=[g1, g2], tys=('X', 'Y', 'Z'))
+        if variant == 'B2':
+            w1 = WhereInstr('T: Clone', ded=Ch('w1d', [None, 'X', 'Y', 'Z']), tag='w1')
+            w2 = Opt(yes('w2p'), WhereInstr('T: Copy', ded=Ch('w2d', [None, 'X', 'Y']), tag='w2'))
+            w3 = Opt(yes('w3p'), WhereInstr('T: Eq', ded=Ch('w3d', [None, 'Y']), tag='w3'))
+            return Spec('struct', shape=shape, traits=[tX(), tY()], members=[Member(nm('a'))], type_instrs=[w1, w2, w3], tys=('X', 'Y', 'Z'))
+        if variant == 'B3':
             t1 = TraitInstr(Ch('t1n', ['map', 'from', 'into', 'into_existing']), 'X', tag='t1')
-            t2 = TraitInstr('map', t2ty if t2ty != 'X' else 'Y', tag='t2')
-            g1 = GhostsInstr(Ch('gs1n', ['ghosts', 'ghosts_owned']), ded=Ch('gs1d', [None, 'X', 'Z']), data=[GhostData(('n', 'gx') if shape == 'named' else ('i', 5), '__gx(@)', tag='gx')])
-            g2 = Opt(Ch('gs2p', [False, True], fork=True), GhostsInstr(Ch('gs2n', ['ghosts', 'ghosts_ref']), ded=Ch('gs2d', [None, 'X']), data=[GhostData(('n', 'gy') if shape == 'named' else ('i', 6), '__gy(@)', tag='gy')]))
-            w1 = WhereInstr('T: Clone', ded=Ch('w1d', [None, 'X', 'Z']), tag='w1')
-            w2 = Opt(Ch('w2p', [False, True], fork=True), WhereInstr('T: Copy', ded=Ch('w2d', [None, 'X']), tag='w2'))
-            cp1 = Opt(Ch('cp1p', [False, True], fork=True), ChildParents([([('n', 'c')], 'C', 'Unspecified')] + ([([('n', 'c')], 'C2', 'Unspecified')] if False else []), ded=Ch('cp1d', [None, 'X', 'Z'])))
-            m0 = Member(nm('a'), instrs=[Opt(Ch('chp', [False, True], fork=True), ChildInstr([('n', 'c')], ded=Ch('chd', [None, 'X', 'Z'])))])
-            return Spec('struct', shape=shape, traits=[t1, t2], members=[m0, Member(nm('b'))], type_instrs=[g1, g2, w1, w2, cp1], tys=('X', 'Y', 'Z'))
-        if item == 'struct':
-            # member-kind rules: literal / pattern / type_hint / ghosts on a field; parent duplicates; permeating repeat; tuple<->named without names
-            t1 = TraitInstr(Ch('t1n', ['map', 'from', 'into', 'into_existing', 'try_into']), 'X', err=Ch('t1e', [None, 'Er']), hint=Ch('t1h', ['Unspecified', 'Struct', 'Tuple']), quick_return=Ch('t1r', [None, '__r(@)']), tag='t1')
-            t2 = TraitInstr('map', t2ty if t2ty != 'X' else 'Y', tag='t2')
-            m0 = Member(nm('a'), instrs=[Opt(Ch('litp', [False, True], fork=True), SimpleInstr('literal', '1')), Opt(Ch('patp', [False, True], fork=True), SimpleInstr('pattern', '_')),
-                                         Opt(Ch('thp', [False, True], fork=True), SimpleInstr('type_hint', 'Struct')),
-                                         Opt(Ch('fgp', [False, True], fork=True), GhostsInstr(Ch('fgn', ['ghosts', 'ghosts_owned', 'ghosts_ref']), data=[GhostData(('n', 'q'), '1', tag='fq')]))])
-            m1 = Member(nm('b'), ty='P', instrs=[Opt(Ch('p1p', [False, True], fork=True), ParentInstr(ded=Ch('p1d', [None, 'X', 'Z']))), Opt(Ch('p2p', [False, True], fork=True), ParentInstr(ded=Ch('p2d', [None, 'X'])))],
+            cp1 = Opt(yes('cp1p'), ChildParents([([('n', 'c')], 'C', 'Unspecified')], ded=Ch('cp1d', [None, 'X', 'Z'])))
+            cp2 = Opt(yes('cp2p'), ChildParents([([('n', 'c')], 'C', 'Unspecified'), ([('n', 'c'), ('n', 'd')], 'D', 'Unspecified')] + [([('n', 'c')], 'C2', 'Unspecified')], ded=Ch('cp2d', [None, 'X'])))
+            m0 = Member(nm('a'), instrs=[Opt(yes('chp'), ChildInstr([('n', 'c'), ('n', 'd')], ded=Ch('chd', [None, 'X', 'Y', 'Z'])))])
+            return Spec('struct', shape=shape, traits=[t1, tY()], members=[m0, Member(nm('b'))], type_instrs=[cp1, cp2], tys=('X', 'Y', 'Z'))
+        if variant == 'C1':
+            m0 = Member(nm('a'), instrs=[Opt(yes('litp'), SimpleInstr('literal', '1')), Opt(yes('patp'), SimpleInstr('pattern', '_')), Opt(yes('thp'), SimpleInstr('type_hint', 'Struct')),
+                                         Opt(yes('fgp'), GhostsInstr(Ch('fgn', ['ghosts', 'ghosts_owned', 'ghosts_ref']), data=[GhostData(('n', 'q'), '1', tag='fq')])),
+                                         Opt(yes('lit2p'), SimpleInstr('literal', '2'))])
+            return Spec('struct', shape=shape, traits=[tX()], members=[m0, Member(nm('b'), repeat=None)], tys=('X', 'Y', 'Z'))
+        if variant == 'C2':
+            m1 = Member(nm('b'), ty='P', instrs=[Opt(yes('p1p'), ParentInstr(ded=Ch('p1d', [None, 'X', 'Z']))), Opt(yes('p2p'), ParentInstr(ded=Ch('p2d', [None, 'X', 'Y']))),
+                                                 Opt(yes('p3p'), ParentInstr(ded=Ch('p3d', [None, 'X']), fields=[PField(('i', 0), tag='pf0'), PField(('n', 'pn'), sub_path=[(('n', 'sub'), None)], tag='pf1')]))])
+            return Spec('struct', shape=shape, traits=[TraitInstr(Ch('t1n', ['map', 'from', 'into']), 'X', hint=Ch('t1h', ['Unspecified', 'Struct']), tag='t1'), tY()], members=[Member(nm('a')), m1], tys=('X', 'Y', 'Z'))
+        if variant == 'C3':
+            # tuple <-> named without member names; permeating repeat on a struct field
+            t1 = TraitInstr(Ch('t1n', ['map', 'from', 'into', 'into_existing', 'try_into']), 'X', err=Ch('t1e', ['Er', None]), hint=Ch('t1h', ['Unspecified', 'Struct', 'Tuple']), quick_return=Ch('t1r', [None, '__r(@)']), tag='t1')
+            m2 = Member(nm('c'), instrs=[Opt(yes('m2p'), MapInstr(Ch('m2n', ['map', 'from', 'into', 'try_into']), member=Ch('m2m', [None, ('n', 'zz')]), action=Ch('m2a', [None, '__e(~)']), tag='e'))],
                         repeat=None)
-            m2 = Member(nm('c'), instrs=[Opt(Ch('m2p', [False, True], fork=True), MapInstr(Ch('m2n', ['map', 'from', 'into', 'try_into']), member=Ch('m2m', [None, ('n', 'zz')]), action=Ch('m2a', [None, '__e(~)']), tag='e'))])
-            return Spec('struct', shape=shape, traits=[t1, t2], members=[m0, m1, m2], tys=('X', 'Y', 'Z'))
-        if variant == 'A':
+            m3 = Member(nm('d'), instrs=[Opt(yes('m3g'), GhostInstr('ghost', action='__g()', tag='g3'))], repeat=None)
+            return Spec('struct', shape=shape, traits=[t1], members=[m2, m3], tys=('X', 'Y', 'Z'))
+        if variant == 'EA1':
+            v0 = Member('A', shape='unit', instrs=[Opt(yes('l1p'), SimpleInstr('literal', '1', ded=Ch('l1d', [None, 'X', 'Z']))), Opt(yes('l2p'), SimpleInstr('literal', '2', ded=Ch('l2d', [None, 'X', 'Y']))),
+                                                   Opt(yes('vpp'), ParentInstr()), Opt(yes('q1p'), SimpleInstr('pattern', '_', ded=Ch('q1d', [None, 'X', 'Z']))), Opt(yes('q2p'), SimpleInstr('pattern', '3', ded=Ch('q2d', [None, 'X'])))])
+            return Spec('enum', traits=[TraitInstr('from', 'X', tag='t1'), TraitInstr('from', 'Y', tag='t2')], members=[v0, Member('B', shape='unit')], tys=('X', 'Y', 'Z'))
+        if variant == 'EA2':
             t1 = TraitInstr(Ch('t1n', ['map', 'from', 'into', 'try_map']), 'X', err=Ch('t1e', [None, 'Er']), tag='t1')
-            t2 = TraitInstr('map', 'Y', tag='t2')
-            v0 = Member('A', shape='unit', instrs=[Opt(Ch('l1p', [False, True], fork=True), SimpleInstr('literal', '1', ded=Ch('l1d', [None, 'X', 'Z']))), Opt(Ch('l2p', [False, True], fork=True), SimpleInstr('literal', '2', ded=Ch('l2d', [None, 'X']))),
-                                                   Opt(Ch('vpp', [False, True], fork=True), ParentInstr())])
-            v1 = Member('B', shape='tuple', fields=[Member(None, instrs=[Opt(Ch('fmp', [False, True], fork=True), MapInstr(Ch('fmn', ['map', 'from', 'into']), member=Ch('fmm', [None, ('n', 'fz')]), action=Ch('fma', [None, '__f(~)']), tag='f'))])],
-                        instrs=[Opt(Ch('h1p', [False, True], fork=True), SimpleInstr('type_hint', Ch('h1h', ['Struct', 'Tuple']), ded=Ch('h1d', [None, 'X', 'Z']))), Opt(Ch('h2p', [False, True], fork=True), SimpleInstr('type_hint', 'Struct'))])
-            return Spec('enum', traits=[t1, t2], members=[v0, v1], tys=('X', 'Y', 'Z'))
-        t1 = TraitInstr(Ch('t1n', ['from', 'into', 'map']), 'X', tag='t1')
-        t2 = TraitInstr('map', 'Y', tag='t2')
-        w1 = WhereInstr('T: Clone', ded=Ch('w1d', [None, 'X', 'Z']), tag='w1')
-        w2 = Opt(Ch('w2p', [False, True], fork=True), WhereInstr('T: Copy', ded=Ch('w2d', [None, 'X']), tag='w2'))
-        v0 = Member('A', shape='unit', instrs=[Opt(Ch('p1p', [False, True], fork=True), SimpleInstr('pattern', '_', ded=Ch('p1d', [None, 'X', 'Z']))), Opt(Ch('p2p', [False, True], fork=True), SimpleInstr('pattern', '1..=2', ded=Ch('p2d', [None, 'X']))),
-                                               MapInstr('map', ded=Ch('vmd', [None, 'Z']), member=('n', 'Az'), tag='vm'), GhostInstr('ghost_ref', ded=Ch('vgd', [None, 'Y', 'Z']), action='__g()', tag='vg')])
-        return Spec('enum', traits=[t1, t2], members=[v0, Member('B', shape='unit')], type_instrs=[w1, w2], tys=('X', 'Y', 'Z'))
+            v1 = Member('B', shape='tuple', fields=[Member(None, instrs=[Opt(yes('fmp'), MapInstr(Ch('fmn', ['map', 'from', 'into']), member=Ch('fmm', [None, ('n', 'fz')]), action=Ch('fma', [None, '__f(~)']), tag='f'))])],
+                        instrs=[Opt(yes('h1p'), SimpleInstr('type_hint', Ch('h1h', ['Struct', 'Tuple']), ded=Ch('h1d', [None, 'X', 'Z']))), Opt(yes('h2p'), SimpleInstr('type_hint', 'Struct', ded=Ch('h2d', [None, 'X'])))])
+            return Spec('enum', traits=[t1, tY()], members=[Member('A', shape='unit'), v1], tys=('X', 'Y', 'Z'))
+        v0 = Member('A', shape='unit', instrs=[MapInstr('map', ded=Ch('vmd', [None, 'X', 'Z']), member=('n', 'Az'), tag='vm'), GhostInstr(Ch('vgn', ['ghost', 'ghost_ref']), ded=Ch('vgd', [None, 'Y', 'Z']), action='__g()', tag='vg')])
+        g1 = GhostsInstr('ghosts', ded=Ch('gs1d', [None, 'X', 'Z']), data=[GhostData(('n', 'Gx'), '__gx(@)', tag='gx')])
+        g2 = Opt(yes('gs2p'), GhostsInstr(Ch('gs2n', ['ghosts', 'ghosts_ref']), ded=Ch('gs2d', [None, 'X']), data=[GhostData(('n', 'Gy'), '__gy(@)', tag='gy')]))
+        return Spec('enum', traits=[TraitInstr(Ch('t1n', ['from', 'into', 'map']), 'X', tag='t1'), tY()], members=[v0, Member('B', shape='unit')], type_instrs=[g1, g2], tys=('X', 'Y', 'Z'))
     return make
 
 
